@@ -326,6 +326,16 @@ def main() -> int:
 
     disagreements = _live_diffs(records)
     searched = 0
+    # constants that could not be located in this tree run on pinned values (translate.py): like a lost T1c tie
+    # this forces the larger search; the correspondence of this run decides
+    try:
+        ctext = open(os.path.join(C.LEAN, "AcnModel", "Gen", "Consts.lean")).read()
+        pinned_blocks = [l for l in ctext.splitlines() if l.startswith("/- PINNED (")]
+    except OSError:
+        pinned_blocks = []
+    if pinned_blocks:
+        notes.append("constants on pinned values (not located in the source): " + "; ".join(b[3:90] for b in pinned_blocks))
+        tie_lost = (tie_lost or "") + "\n".join(pinned_blocks)
     if tie_lost:
         notes.append("T1c tie lost (not a violation by itself; failing-input search forced): " + tie_lost[:600])
     if (proof_broken or disagreements or tie_lost):
